@@ -1183,7 +1183,11 @@ _node_map: dict[type, Callable[[Any, Module | Class], Expr]] = {
 }
 
 
-def _build(node: ast.AST, parent: Module | Class, **kwargs: Any) -> Expr:
+def _build(node: ast.AST, parent: Module | Class, *, in_subscript: bool = False, **kwargs: Any) -> Expr:
+    # Only the slice itself (or the string annotation standing for it) can be an implicit tuple,
+    # not the tuples nested deeper in it: `a[[(1, 2)]]` is not `a[[1, 2]]`.
+    if in_subscript and isinstance(node, (ast.Tuple, ast.Constant)):
+        kwargs["in_subscript"] = True
     return _node_map[type(node)](node, parent, **kwargs)
 
 
